@@ -10,7 +10,8 @@ from vlib.build import surface_from, ints
 
 PROPERTY = "C16"
 RULE = ("Connected oriented triangulated surfaces built by the harness: grids, cylinders, tori, Delaunay disks, fans, strips, "
-        "closed polyhedra (optionally midpoint-subdivided), connected sums with tori / polyhedra (genus 0-3), then random face "
+        "closed polyhedra (optionally midpoint-subdivided), connected sums with tori / polyhedra (genus 0-3; sub-check cut_large "
+        "subdivides every base to 300-1500 faces, cut_small stays <= ~200), then random face "
         "deletions (new border loops), edge flips, 1-3 splits, triangle edge splits; largest face component kept; optional jitter "
         "(un-jittered regular grids keep exact shortest-path ties), optional roof-like folds (creases for the feature detector), "
         "vertex/face relabelling. Singularity sets: empty, one, two adjacent, k random, border only, mixed, a vertex with all its "
